@@ -18,7 +18,8 @@ closed here by a QUOTIENT + NATURALITY argument that touches none of those proof
 * `SameCluster` and `Reach` only compare (`sameCluster_map`, `reach_map`), so the threshold theorem
   proved on the quotient (`C04_nnchain_single`, `C04_generic_single`) IS the threshold theorem on `α`.
 
-Results: `C04_nnchain_single_noTri`, `C04_generic_single_noTri` — hypotheses `OrderLaws α`, no NaN,
+Results: `C04_nnchain_single_noTri`, `C04_nnchain_single_count_noTri` (heights sorted; #steps ≤ h = n − #components),
+`C04_generic_single_noTri` — hypotheses `OrderLaws α`, no NaN,
 `BeqOrd α` (generic: in addition every entry strictly below `T::max_value()`), NO trichotomy.
 With `C04_mst`, `C04_linkage_single` and `C04_primitive` (which never needed it) the threshold
 characterisation of single linkage now holds for all five entry points on the float widths, `±0` included.
@@ -249,6 +250,74 @@ theorem C04_nnchain_single_noTri (L : OrderLaws α) (hnan : ∀ x : α, Num.isNa
       simp [mapDend]
     rw [e, sameCluster_map G, reach_map G rfl] at this
     exact this
+
+/-! ## The counting form (heights sorted; #steps ≤ h = n − #components) without trichotomy -/
+
+section Count
+variable {β : Type} [Num β]
+
+theorem pairwise_sorted_map {g : α → β} (G : OrdHom g) (steps : List (Step α)) :
+    (steps.map (mapStep g)).Pairwise (fun s t => Num.lt t.d s.d = false) ↔
+      steps.Pairwise (fun s t => Num.lt t.d s.d = false) := by
+  rw [List.pairwise_map]
+  simp only [mapStep_d, G.lt]
+
+theorem filter_le_map {g : α → β} (G : OrdHom g) (steps : List (Step α)) (h : α) :
+    ((steps.map (mapStep g)).filter (fun st => !Num.lt (g h) st.d)).length =
+      (steps.filter (fun st => !Num.lt h st.d)).length := by
+  rw [List.filter_map, List.length_map]
+  congr 2
+  funext st
+  simp only [Function.comp, mapStep_d, G.lt]
+
+end Count
+
+/-- **Counting form for `nnchain_with(Single)`, no `LtTrichotomy`**: the returned heights are
+non-decreasing and for every level `h` the number of steps of height `≤ h` is `n` minus the number of
+connected components of the threshold graph at `h` (the MST weight multiset, order-theoretically). -/
+theorem C04_nnchain_single_count_noTri (L : OrderLaws α) (hnan : ∀ x : α, Num.isNaN x = false)
+    (B : BeqOrd α) (chk : Bool) (st : State α) (d : Dendrogram α)
+    (data : Array α) (n : Nat) (h2 : 2 ≤ n) (hs : n < 2147483648)
+    (hl : 2 * data.size = n * (n - 1)) :
+    ∃ st' d' M', nnchainWith chk .single st d data n = .ok (st', d', M') ∧
+      d'.steps.toList.Pairwise (fun s t => Num.lt t.d s.d = false) ∧
+      ∀ h : α, ∃ reps : List Nat,
+        (d'.steps.toList.filter (fun st => !Num.lt h st.d)).length + reps.length = n ∧
+        (∀ r ∈ reps, r < n) ∧
+        reps.Pairwise (fun r r' => ¬ Reach n data h r r') ∧
+        (∀ u, u < n → ∃ r ∈ reps, Reach n data h u r) := by
+  letI : Num (OrdQ L hnan) := ordQNum L hnan
+  have G := ordQ_ordHom L hnan B
+  have hl' : 2 * (data.map (OrdQ.mk L hnan)).size = n * (n - 1) := by rw [Array.size_map]; exact hl
+  obtain ⟨stq, dq, Mq, hrq, hsorted, hcount⟩ := C04_nnchain_single_count (ordQ_orderLaws L hnan)
+    (ordQ_trichotomy L hnan) (ordQ_noNaN L hnan) chk (State.new) (Dendrogram.new 0)
+    (data.map (OrdQ.mk L hnan)) n h2 hs hl'
+  have nat := C10 G (m := .single) (Or.inl rfl) chk .nnchain (fun h => by cases h) (fun h => by cases h)
+    st State.new d (Dendrogram.new 0) data n
+  have hrq' : runWith chk .nnchain .single State.new (Dendrogram.new 0)
+      (data.map (OrdQ.mk L hnan)) n = .ok (stq, dq, Mq) := hrq
+  rw [hrq'] at nat
+  cases hr : runWith chk .nnchain .single st d data n with
+  | error p => rw [hr] at nat; cases nat
+  | ok r =>
+    rw [hr] at nat
+    obtain ⟨st', d', M'⟩ := r
+    have hd : dq = mapDend (OrdQ.mk L hnan) d' := by
+      simp only [Functor.map, Except.map, out, mapOut, Except.ok.injEq, Prod.mk.injEq] at nat
+      exact nat.1
+    have e : dq.steps.toList = d'.steps.toList.map (mapStep (OrdQ.mk L hnan)) := by
+      rw [hd]; simp [mapDend]
+    refine ⟨st', d', M', hr, ?_, fun h => ?_⟩
+    · rw [e] at hsorted
+      exact (pairwise_sorted_map G _).mp hsorted
+    · obtain ⟨reps, h1, h2', h3, h4⟩ := hcount (OrdQ.mk L hnan h)
+      rw [e, filter_le_map G] at h1
+      refine ⟨reps, h1, h2', ?_, ?_⟩
+      · exact h3.imp (fun hne hr' => hne ((reach_map G rfl n data h _ _).mpr hr'))
+      · intro u hu
+        obtain ⟨r, hr1, hr2⟩ := h4 u hu
+        exact ⟨r, hr1, (reach_map G rfl n data h u r).mp hr2⟩
+
 
 /-! ## `generic_with(.., Single, ..)` without trichotomy -/
 
